@@ -315,6 +315,29 @@ pub fn skip_first_char<'a>(s: &'a str) -> (r: &'a str) { unimplemented!() }
 //@|    ensures true, // O:asc.logcat.threadtime_msg_no_panic
 //@ end
 
+// GenLog2DltMsgIterator::next: the statements that build the log message of a matched line (the text is a capture: both ends are boundaries)
+//@ extract src/utils/genlog2dltmsgiterator.rs region `let index = self.index;` .. `let msg = DltMessage {` in <Iterator for GenLog2DltMsgIterator>::next
+//@   sig pub fn genlog_msg(vx_self: &mut VxLogcatHdr, cap_str: &str, loc_msg: (usize, usize), mtin: u8, apid: DltChar4, timestamp_us: u64, reception_time_us: u64, payload: Vec<u8>) -> (r: DltMessage)
+//@   tail `msg`
+//@   sub R12 `self` => `vx_self` *
+//@   sub R11 `cap_str[loc_msg.0..loc_msg.1].to_owned()` => `vx_str_to_owned(vx_str_slice(cap_str, loc_msg.0, loc_msg.1))`
+//@   spec
+//@|    requires loc_msg.0 <= loc_msg.1 <= blen(cap_str), boundary(cap_str, loc_msg.0 as int), boundary(cap_str, loc_msg.1 as int), // a regex capture
+//@|        old(vx_self).index < u32::MAX, // fewer than 2^32 messages (ASSUMED)
+//@|    ensures true, // O:asc.genlog.msg_no_panic
+//@ end
+
+// Asc2DltMsgIterator::next, a CAN-FD error-frame line: the message built for it
+//@ extract src/utils/asc2dltmsgiterator.rs region `let payload = vec![];` .. `return Some(DltMessage {` in <Iterator for Asc2DltMsgIterator>::next
+//@   sig pub fn asc_errorframe_msg(vx_self: &mut VxAscIt, can_id: &u8, timestamp_us: i64) -> (r: Option<DltMessage>)
+//@   tail `None`
+//@   sub R12 `self` => `vx_self` *
+//@   sub R11 `vx_self.date_us.saturating_add_signed(timestamp_us)` => `vx_u64_saturating_add_signed(vx_self.date_us, timestamp_us)`
+//@   spec
+//@|    requires old(vx_self).index < u32::MAX, // fewer than 2^32 messages (ASSUMED)
+//@|    ensures true, // O:asc.errorframe.msg_no_panic
+//@ end
+
 // the same statements in GenLog2DltMsgIterator::get_apid_info_msg
 //@ extract src/utils/genlog2dltmsgiterator.rs region `let index = self.index;` .. `$end` in GenLog2DltMsgIterator::get_apid_info_msg
 //@   sig pub fn genlog_apid_info_msg(vx_self: &mut VxLogcatHdr, apid: &DltChar4, reception_time_us: u64, timestamp_us: u64, payload: Vec<u8>) -> (r: Option<DltMessage>)
